@@ -10,6 +10,7 @@ import (
 	"strings"
 	"sync"
 	"time"
+	"unicode/utf8"
 
 	lang "github.com/alligator/jqawk/src"
 )
@@ -308,6 +309,7 @@ func checkC13(c *Ctx) {
 	c.Assume("a string literal cannot contain its own quote (no escape exists); quotes are swapped only where the content lacks the other quote; a regex literal cannot start with '=' (\"/=\" is one token)")
 	c.Assume("brace classification (block / object literal / match body) is by the left neighbour; a '{' at the start of a statement is a block only directly after '{', '}' or ';' (the corpus has no bare block after a newline and no expression statement starting with '{')")
 	c.Assume("numeric literal values: the decimal reading is rendered as the nearest double (math/big) in print's format (shortest positional decimal); spellings like 0x10 or 1e5 are not numeric literals (the lexer splits them) and are not in the value family; fractional or out-of-range indices are not used")
+	c.Assume("string literals as byte strings (MC_LexStr / MC_StrSite, AlphaId 2): at the sites that compare with a member of the input document only values that are well-formed UTF-8 are used (a JSON document cannot carry other bytes); the sites that count or iterate characters (.length(), for-in over a string) and the regex site are not used with bytes >= 0x80")
 	c.Assume("an invalid escape is compared by outcome class only (runtime error); object keys written as strings are not escape-processed and are not compared")
 	c.Assume("corpus programs never print or iterate objects with more than one key (map order is C10's business); the corpus text itself is run three times and must be deterministic")
 	pool := c.Pool()
@@ -385,8 +387,11 @@ func checkC13(c *Ctx) {
 			c.Sample(rep)
 		}
 	})
+	// alphabet 1: escapes, quotes, blanks; alphabet 2: a literal is a byte string (bytes >= 0x80 of every UTF-8 role next to,
+	// between and inside escapes); probes: every byte value 0..255 alone, before, after, around and between escapes
 	c.TLC(TLCOpt{Module: "MC_LexStr", Workers: 8, Heap: "6g",
-		Cfg: cfgText("INIT Init", "NEXT Next", fmt.Sprintf("CONSTANT MaxLen = %d", strLen), "INVARIANT Laws", "INVARIANT Vec", "CHECK_DEADLOCK FALSE"),
+		Cfg: cfgText("INIT Init", "NEXT Next", "CONSTANTS", fmt.Sprintf("MaxLen = %d", strLen), fmt.Sprintf("MaxLen2 = %d", strLen-1),
+			"INVARIANT Laws", "INVARIANT Vec", "CHECK_DEADLOCK FALSE"),
 		OnVec: func(raw []byte) {
 			var v strVec
 			VecDecode(raw, &v)
@@ -440,8 +445,22 @@ func checkC13(c *Ctx) {
 	allSites := []string{"print", "printlist", "assign", "addassign", "concatl", "concatr", "eqdoc", "neqdoc", "not", "cond", "whilecond", "arg", "ret", "elem", "objval",
 		"recv", "recvsplit", "methodarg", "printfarg", "printffmt", "forin", "subset", "subget", "subgetdoc", "subsetget", "subnested", "subincr", "subaddassign",
 		"subdocassign", "subdelete", "matchsubj", "matchpat", "matcharr", "matchres", "tildesubj", "grouped", "andor"}
+	// alphabet 2 (byte strings): the sites that hand the denoted bytes on unchanged; those that count or split
+	// characters (recv: length, forin: characters) and the regex site (a regex must be UTF-8) are left out
+	var byteSites []string
+	for _, s := range allSites {
+		if s != "recv" && s != "forin" && s != "tildesubj" {
+			byteSites = append(byteSites, s)
+		}
+	}
+	siteDocSkipped := 0
+	siteLen2 := 0 // quick: the probes (byte groups before, after and around each escape) only
+	if thorough {
+		siteLen2 = 3
+	}
 	c.TLC(TLCOpt{Module: "MC_StrSite", Workers: 8, Heap: "6g",
-		Cfg: cfgText("INIT Init", "NEXT Next", "CONSTANTS", fmt.Sprintf("MaxLen = %d", siteLen), `Sites = {"`+strings.Join(allSites, `", "`)+`"}`,
+		Cfg: cfgText("INIT Init", "NEXT Next", "CONSTANTS", fmt.Sprintf("MaxLen = %d", siteLen), fmt.Sprintf("MaxLen2 = %d", siteLen2),
+			`Sites = {"`+strings.Join(allSites, `", "`)+`"}`, `Sites2 = {"`+strings.Join(byteSites, `", "`)+`"}`,
 			"INVARIANT Laws", "INVARIANT Vec", "CHECK_DEADLOCK FALSE"),
 		OnVec: func(raw []byte) {
 			var v siteVec
@@ -452,12 +471,17 @@ func checkC13(c *Ctx) {
 				if v.OK {
 					val = string(symsToBytes(v.Val))
 				}
+				if !utf8.ValidString(val) { // a JSON document cannot hold these bytes
+					siteDocSkipped++
+					return
+				}
 				kq, _ := json.Marshal(val)
 				j.Files = []FileIn{{Name: "in.json", Data: []byte(`{"k": ` + string(kq) + `, ` + string(kq) + `: 5}`)}}
 			}
 			stSite.Submit(j)
 		}})
 	stSite.Wait()
+	c.Set("string_site_vectors_skipped_value_not_utf8_at_document_site", siteDocSkipped)
 	for _, s := range allSites {
 		if siteSeen[s] == 0 {
 			infra("C13: no literal was compared at site %q", s)
